@@ -356,8 +356,9 @@ func (bc *BlockChain) SetHead(head uint64) error {
 
 	// Rewind the header chain, deleting all block bodies until then
 	delFn := func(db kaidb.Database, height uint64) {
-		rawdb.DeleteBlockMeta(bc.db, height)
+		// the parts are found through the meta: delete them first
 		rawdb.DeleteBlockPart(bc.db, height)
+		rawdb.DeleteBlockMeta(bc.db, height)
 	}
 	bc.hc.SetHead(head, delFn)
 	currentHeader := bc.hc.CurrentHeader()
@@ -452,8 +453,9 @@ func (bc *BlockChain) setHeadBeyondRoot(head uint64, root common.Hash, repair bo
 
 				// delete rewounded block data
 				rawdb.DeleteBody(bc.db, newHeadBlock.Hash(), newHeadBlock.Height())
-				rawdb.DeleteBlockMeta(bc.db, newHeadBlock.Height())
+				// (the parts are found through the meta: delete them first)
 				rawdb.DeleteBlockPart(bc.db, newHeadBlock.Height())
+				rawdb.DeleteBlockMeta(bc.db, newHeadBlock.Height())
 
 				log.Debug("Skipping block with threshold state", "number", newHeadBlock.Height(), "hash", newHeadBlock.Hash(), "root", appHash)
 				newHeadBlock = bc.GetBlock(newHeadBlock.LastBlockHash(), newHeadBlock.Height()-1) // Keep rewinding
